@@ -326,7 +326,7 @@ inline void run_kernel_group(const KernelGroup& G, bool thorough, const KFn& fn)
             c.call = [m, blk, av, ir, ix](uint8_t** p) { if (av) reim4_save_1blk_to_reim_avx(m, blk, (double*)p[ir], (const double*)p[ix]); else reim4_save_1blk_to_reim_ref(m, blk, (double*)p[ir], (const double*)p[ix]); };
             fn(c, ki); }
           for (uint64_t nrows = 0; nrows <= 4; ++nrows) {
-            for (uint64_t sl : {(uint64_t)0, 2 * m, 2 * m + 4, 3 * m}) {
+            for (uint64_t sl : {(uint64_t)0, 2 * m, 2 * m + 4, 3 * m, 2 * m + 1, 2 * m + 2, 3 * m + 7}) {
               // sl == 0: the contiguous form (stride 2m implied)
               uint64_t esl = sl ? sl : 2 * m;
               ApiCase c; c.id = sfmt("kernel|reim4_extract_1blk_from_contiguous_reim%s_%s|m=%llu|blk=%llu|nrows=%llu|sl=%llu", sl ? "_sl" : "", av ? "avx" : "ref", (unsigned long long)m, (unsigned long long)blk, (unsigned long long)nrows, (unsigned long long)sl);
